@@ -1,5 +1,6 @@
 """C19 - stored channel state is never lost or torn by the storage layer (structural part)."""
 from engine import *
+import provenance
 
 FS = 'lightning_persister::fs_store::common::FilesystemStoreInner::'
 FSO = 'lightning_persister::fs_store::common::FilesystemStore'
@@ -421,4 +422,5 @@ RULES = [
 	('19.h', 'lazy clean-up after consolidation is bounded above by the id of the monitor just written', r19h),
 	('19.f', 'KVStore errors are propagated in the persistence paths', r19f),
 	('19.g', 'archive removes the live monitor only after the archive copy was written; Completed only on Ok', r19g),
+	('19.q', 'no call hands a value named like one parameter of the callee to a different parameter (swapped type-compatible arguments; rules/provenance.py)', lambda F: provenance.swaps_for_property(F, 'C19', '19.q')),
 ]
